@@ -1,0 +1,17 @@
+//go:build verif
+
+package parser
+
+// Contracts for parser helpers used by the semantic analyser (C04, C05). Comment-only file, read by /verif/engine (govc).
+
+//@ func (t *Thrift) GetTypedef(alias string) (*Typedef, bool)
+//@   requires t != nil && forall i int :: 0 <= i && i < len(t.Typedefs) ==> t.Typedefs[i] != nil
+//@   ensures result1 ==> result0 != nil && result0.Alias == alias && exists k int :: 0 <= k && k < len(t.Typedefs) && t.Typedefs[k] == result0 && forall j int :: 0 <= j && j < k ==> t.Typedefs[j].Alias != alias
+//@   ensures !result1 ==> result0 == nil && forall k int :: 0 <= k && k < len(t.Typedefs) ==> t.Typedefs[k].Alias != alias
+//@   loop 1 invariant forall j int :: 0 <= j && j < $i ==> t.Typedefs[j].Alias != alias
+
+//@ func (t *Thrift) GetEnum(name string) (*Enum, bool)
+//@   requires t != nil && forall i int :: 0 <= i && i < len(t.Enums) ==> t.Enums[i] != nil
+//@   ensures result1 ==> result0 != nil && result0.Name == name && exists k int :: 0 <= k && k < len(t.Enums) && t.Enums[k] == result0 && forall j int :: 0 <= j && j < k ==> t.Enums[j].Name != name
+//@   ensures !result1 ==> result0 == nil && forall k int :: 0 <= k && k < len(t.Enums) ==> t.Enums[k].Name != name
+//@   loop 1 invariant forall j int :: 0 <= j && j < $i ==> t.Enums[j].Name != name
